@@ -170,7 +170,7 @@ func (x *Exec) evalIdent(id *ast.Ident, st *St, fr *Frame) *Val {
 		return constVal(o.Val(), o.Type())
 	case *types.Var:
 		if v, ok := st.vars[o]; ok {
-			return v
+			return x.chanDecorate(v, o.Name(), st, fr)
 		}
 		if o.Parent() == o.Pkg().Scope() {
 			return x.globalVal(o)
@@ -490,6 +490,3 @@ func (x *Exec) evalComposite(n *ast.CompositeLit, st *St, fr *Frame, addr bool, 
 	}
 }
 
-func (x *Exec) evalRecv(n *ast.UnaryExpr, st *St, fr *Frame, k kval) {
-	oos("channel receive outside select at %s", x.W.pos(n.Pos()))
-}
